@@ -1832,7 +1832,16 @@ impl TypeChecker {
                     );
                 }
             }
-            E::BlobAccess { .. } | E::Index { .. } => {}
+            E::BlobAccess { .. } => {}
+            // Only tuples can be indexed like this, and tuples are immutable.
+            E::Index { span, .. } => {
+                return err_type_error!(
+                    self,
+                    *span,
+                    TypeError::Assignability,
+                    "Cannot assign to the elements of a tuple"
+                );
+            }
 
             E::Variant { .. }
             | E::Call { .. }
